@@ -7,7 +7,8 @@
   impl    the real qmail-smtpd, qmail-qmtpd and qmail-qmqpd with QMAILQUEUE = recording stand-in (exit status 0..255, custom
           descriptor-6 text, death by signal): message sizes around databytes, 98..101 Received/Delivered-To fields, over-long /
           NUL-containing / policy-refused addresses, malformed netstrings, EVERY cut point of small sessions, hostile
-          HELO / TCPREMOTE* strings
+          HELO / TCPREMOTE* strings; and the daemons in front of the REAL qmail-queue for transactions that are given up with
+          the flushed part of the envelope ending at / next to the end of an address record (1024-byte buffer of qmail.c)
   verdict spec/IngestRec.tla: TLC judges every transaction (acknowledgements, what the queue program received byte for byte,
           the Received field, reply classes)
 """
@@ -280,6 +281,85 @@ def gen_cases(rng, thorough):
     return cs
 
 
+
+def e2e_cases(rng, thorough):
+    """the daemons in front of the REAL qmail-queue (no stand-in): the contract between qmail.c (a message is given up by never
+    sending the envelope's final empty record) and qmail-queue (an envelope that ends anywhere else is refused) holds only if both
+    sides keep it - so the transactions that are given up are placed so that what qmail.c has already flushed (1024-byte buffer)
+    ends exactly at, one before and one after the end of an address record"""
+    cs = []
+    body = b"Subject: e2e\n\nthrough the real queue program\n"
+    nul = b"nu\0l@rh.test"
+    for proto in ("qmqp", "qmtp", "smtp"):
+        cs.append(Case(proto, body, b"s@sender.test", [b"a@rh.test", b"b@rh.test"] if proto != "smtp" else [b"a@rh.test"], note="e2e-good"))
+    for B in ((1024, 2048, 3072) if thorough else (1024, 2048)):
+        for delta in (-1, 0, 1):
+            for nbefore in ((1, 3, 9) if thorough else (1, 9)):
+                # F sender \0 (T rcpt \0) x nbefore  ==  B + delta bytes
+                total = B + delta
+                sender = b"s@sender.test"
+                left = total - (len(sender) + 2)
+                per = left // nbefore
+                rc = []
+                for j in range(nbefore):
+                    ln = (per if j < nbefore - 1 else left - per * (nbefore - 1)) - 2
+                    if ln < 10 or ln > 900:
+                        rc = None
+                        break
+                    rc.append((b"r%d-" % j) + b"x" * (ln - len(b"r%d-" % j) - len(b"@rh.test")) + b"@rh.test")
+                if rc is None:
+                    continue
+                assert len(sender) + 2 + sum(len(r) + 2 for r in rc) == total
+                good = rc + [b"one-more@rh.test"]
+                tag = "e2e-B%d%+d-n%d" % (B, delta, nbefore)
+                cs.append(Case("qmqp", body, sender, good + [nul], rc=["ok"] * len(good) + ["bad"], note=tag + "-nul"))
+                cs.append(Case("qmqp", body, sender, good, note=tag + "-good"))
+                cs.append(Case("qmtp", body, sender, good, note=tag + "-good"))
+                for proto in ("qmtp", "qmqp"):
+                    c_ = Case(proto, body, sender, good, note=tag + "-cutlast")
+                    full = {"qmtp": qmtp_stream, "qmqp": qmqp_stream}[proto](c_)
+                    c_.cut = len(full) - 1
+                    c_.incomplete = True
+                    cs.append(c_)
+                c_ = Case("qmtp", body, sender, good, note=tag + "-badcomma")
+                c_.lastbyte = b";"
+                c_.incomplete = True
+                c_.cut = len(qmtp_stream(c_))
+                cs.append(c_)
+    for c in cs:
+        c.e2e = True
+    return cs
+
+
+def run_e2e(tree, ids, c):
+    """one session against the real queue program; returns (out, subs) with subs in the stand-in's record form"""
+    sandbox.clear_queue(tree.root)
+    env = sandbox.shim_env(tree, ids=ids)
+    env.update(ENV0)
+    env.pop("RELAYCLIENT", None)
+    env.pop("QMAILQUEUE", None)
+    stream = {"smtp": smtp_stream, "qmtp": qmtp_stream, "qmqp": qmqp_stream}[c.proto](c)
+    if c.cut is not None:
+        stream = stream[: c.cut]
+    if getattr(c, "lastbyte", None):
+        stream = stream[:-1] + c.lastbyte
+    binary = {"smtp": "qmail-smtpd", "qmtp": "qmail-qmtpd", "qmqp": "qmail-qmqpd"}[c.proto]
+    out, rc, to = sessions.run_daemon([tree.bin(binary)], stream, env, cwd=tree.root, timeout=30)
+    q = sandbox.list_queue(tree.root, with_data=True)
+    subs = []
+    for (d, n), v in sorted(q.items()):
+        if d != "todo":
+            continue
+        parts = v["data"].split(b"\0", 2)
+        rest = parts[2] if len(parts) == 3 and parts[0].startswith(b"u") and parts[1].startswith(b"p") else v["data"]
+        mess = q.get(("mess", n), {}).get("data", b"")
+        i = mess.find(b"\n")
+        subs.append({"msg": mess[i + 1:] if mess.startswith(b"Received: (qmail ") and i >= 0 else mess, "env": rest + b"\0", "exit": 0})
+    if not subs:
+        subs = [{"msg": b"", "env": b"", "exit": 0}]          # the queue program was started and did not commit
+    return out, subs
+
+
 def main():
     ap = argparse.ArgumentParser()
     ap.add_argument("--tier", default=os.environ.get("VERIF_TIER", "quick"))
@@ -378,6 +458,18 @@ def main():
         elif os.path.exists(cdb):
             os.unlink(cdb)
         os.unlink(os.path.join(ctl, "morercpthosts"))
+    # ---- end to end: the same daemons in front of the real qmail-queue
+    if not a.replay or "e2e" in json.load(open(a.replay))["case"].get("note", ""):
+        ids = sandbox.write_ids(ck.scratch.path("ids"), tree.root)
+        ne2e = 0
+        for c in e2e_cases(ck.rng, thorough):
+            out, subs_ = run_e2e(tree, ids, c)
+            recs.append(make_record(c, out, subs_))
+            ck.count((c.proto, c.note, len(c.body)), nontrivial=True)
+            ne2e += 1
+        sandbox.clear_queue(tree.root)
+        ck.cov["sessions_through_the_real_queue_program"] = ne2e
+        ck.cov["of_which_committed"] = sum(1 for r in recs[-ne2e:] if r["qcomplete"])
     if hung > 3:
         raise Infra("%d sessions hung" % hung)
     recfile = ck.scratch.path("c07.ndjson")
